@@ -112,3 +112,47 @@ func init() {
 		})
 	})
 }
+
+// genTruncMarkerLens: the marker-length documents CUT SHORT inside their first header bytes —
+// every prefix of up to 14 bytes, whole, with every two-way cut and byte by byte, through Write +
+// end of input and through the reader entry point: a length byte that looks like a closing
+// marker must not end the document when it arrives in its own chunk (C03: truncated input is an
+// error; C02: the verdict does not depend on the cut)
+func genTruncMarkerLens(r *Rand, tier string, emit func(string)) {
+	seen := map[string]bool{}
+	genMarkerLens(r, tier, func(l string) {
+		f := strings.Fields(l)
+		wire := encodeToks(f[1], f[3])
+		for n := 1; n <= 14 && n < len(wire); n++ {
+			p := wire[:n]
+			key := f[1] + ":" + string(p)
+			if seen[key] {
+				continue
+			}
+			seen[key] = true
+			for c := 1; c < n; c++ {
+				for _, entry := range []string{"W", "R"} {
+					emit(fmt.Sprintf("parse %s %s -1 %s", f[1], entry, ChunksString([][]byte{p[:c], p[c:]})))
+				}
+			}
+			emit(fmt.Sprintf("parse %s P -1 %s", f[1], ChunksString([][]byte{p})))
+			var one [][]byte
+			for j := range p {
+				one = append(one, p[j:j+1])
+			}
+			emit(fmt.Sprintf("parse %s W -1 %s", f[1], ChunksString(one)))
+		}
+	})
+}
+
+func init() {
+	RegisterGen("C03", genTruncMarkerLens)
+	RegisterGen("C02", func(r *Rand, tier string, emit func(string)) {
+		genTruncMarkerLens(r, tier, func(l string) {
+			f := strings.Fields(l)
+			if f[2] == "W" || f[2] == "R" {
+				emit("chunk " + f[1] + " " + f[2] + " " + f[4])
+			}
+		})
+	})
+}
